@@ -26,7 +26,7 @@ ASSUMPTIONS = [
     "for languages 'q=0 is never chosen' is applied within a stage of the documented three-stage fallback",
     "when several equally specific ranges match an offer with different q the check is set-valued",
 ]
-TIERS = {"quick": dict(nshards=16, multisets=160, offers_per=6), "thorough": dict(nshards=64, multisets=2500, offers_per=20)}
+TIERS = {"quick": dict(nshards=16, multisets=160, offers_per=6), "thorough": dict(nshards=64, multisets=1100, offers_per=20)}
 QS = [None, "0", "0.001", "0.5", "1", "1.000", "abc", "1.2.3", "-0.5", "1.5", "2"]
 
 
